@@ -111,6 +111,48 @@ Proof.
     destruct H as [H|[H|H]]; discriminate.
 Qed.
 
+(* the finish time is the RECORDED one (status.state.lastTransitionTime): the
+   creation time plays no role whatsoever ... *)
+Theorem gc_creation_irrelevant : forall lj fresh now1 now2 c1 c2,
+  let recreate c (j : gjob) := mkGjob (g_uid j) (g_phase j) (g_ttl j) (g_deleting j) (g_finish j) c in
+  process_job (option_map (recreate c1) lj) (option_map (recreate c2) fresh) now1 now2 =
+  process_job lj fresh now1 now2.
+Proof. intros [j|] [f|] now1 now2 c1 c2; reflexivity. Qed.
+
+(* ... and a job without a recorded finish time is never collected, whatever
+   its phase, TTL, age and the clock: jobFinishTime fails, processTTL returns
+   the error (before any enqueueAfter), processJob hands it to the rate-limited
+   retry of handleErr *)
+Theorem gc_no_finish_time_never_collected : forall lj f now1 now2,
+  g_finish f = None ->
+  go_delete (process_job lj (Some f) now1 now2) = None.
+Proof.
+  intros lj f now1 now2 Hf.
+  destruct (go_delete (process_job lj (Some f) now1 now2)) as [uid|] eqn:E; [|reflexivity].
+  apply gc_only_when_due in E.
+  destruct E as (j & f' & _ & Ef & _ & (_ & _ & ttl & fin & _ & Hfin & _) & _).
+  inversion Ef; subst. congruence.
+Qed.
+
+Theorem gc_no_finish_time_error : forall j fresh now1 now2,
+  finished (g_phase j) = true -> g_deleting j = false -> g_ttl j <> None -> g_finish j = None ->
+  process_job (Some j) fresh now1 now2 = mkGcOut [] None true.
+Proof.
+  intros j fresh now1 now2 Hp Hd Ht Hf. unfold process_job, process_ttl, time_left, needs_cleanup.
+  rewrite Hd, Hf. destruct (g_ttl j); [|congruence]. rewrite Hp. reflexivity.
+Qed.
+
+Theorem gc_no_finish_time_error_fresh : forall j f now1 now2,
+  gc_due j now1 ->
+  finished (g_phase f) = true -> g_deleting f = false -> g_ttl f <> None -> g_finish f = None ->
+  process_job (Some j) (Some f) now1 now2 = mkGcOut [] None true.
+Proof.
+  intros j f now1 now2 Hj Hp Hd Ht Hf. unfold process_job.
+  apply process_ttl_expired in Hj. rewrite Hj.
+  unfold process_ttl, time_left, needs_cleanup.
+  rewrite Hd, Hf. destruct (g_ttl f); [|congruence]. rewrite Hp. reflexivity.
+Qed.
+
 (* ------------------------------------------------------------------ *)
 (* Cron: schedule choice                                               *)
 (* ------------------------------------------------------------------ *)
@@ -992,7 +1034,7 @@ Proof.
 Qed.
 
 Example gc_nonvacuous :
-  let j := mkGjob 1 PhCompleted (Some 10) false (Some (5 * sec)) in
+  let j := mkGjob 1 PhCompleted (Some 10) false (Some (5 * sec)) (Some 0) in
   gc_due j (15 * sec) /\ ~ gc_due j (15 * sec - 1) /\
   process_job (Some j) (Some j) (15 * sec) (15 * sec) = mkGcOut [] (Some 1) false /\
   process_job (Some j) (Some j) (15 * sec - 1) (15 * sec - 1) = mkGcOut [1] None false.
@@ -1091,4 +1133,24 @@ Lemma law_zone_model : forall tz s,
             | KEvery, _ => None | _, false => None | _, true => Some (zone_used tz s) end) = true.
 Proof.
   intros tz [k [e|]]; destruct tz, k; cbn; rewrite ?Z.eqb_refl; reflexivity.
+Qed.
+
+(* the law on observed behaviour accepts the model (one clock reading) *)
+Lemma law_gc_no_finish_model : forall lj fresh now,
+  let o := process_job lj fresh now now in
+  law_gc_no_finish lj fresh now (go_delete o) (go_requeues o) (go_err o) = true.
+Proof.
+  intros lj fresh now. cbv zeta. unfold law_gc_no_finish, eligible_no_finish, expiry, process_job,
+    process_ttl, time_left, needs_cleanup, is_some.
+  destruct lj as [j|]; [|destruct fresh; reflexivity].
+  destruct (g_deleting j), (g_ttl j) as [t|], (finished (g_phase j)), (g_finish j) as [fi|]; cbn;
+    try (destruct fresh; reflexivity).
+  destruct (Z.leb_spec (fi + t * sec - now) 0); cbn.
+  - destruct fresh as [f|]; cbn; [|reflexivity].
+    destruct (g_deleting f), (g_ttl f) as [t'|], (finished (g_phase f)), (g_finish f) as [fi'|]; cbn;
+      rewrite ?andb_true_r, ?andb_false_r; try reflexivity;
+      try (destruct (fi + t * sec <=? now); reflexivity).
+    destruct (fi' + t' * sec - now <=? 0); cbn; rewrite ?andb_false_r; reflexivity.
+  - destruct fresh as [f|]; cbn; [|reflexivity].
+    destruct (Z.leb_spec (fi + t * sec) now); [lia|]. cbn. reflexivity.
 Qed.
